@@ -17,7 +17,7 @@ from pyvc.core import SV, PyRaise, SymDict, SymObj, TBool, TInt, TOpaque, Unsupp
 from pyvc.interp import BuiltinVal, I
 from pyvc.task import Task, check_call
 
-from .util import MOD, TUP2, norm, ok_scalar, sym_obj
+from .util import MOD, TUP2, norm, ok_scalar, sym_obj, tuple_type
 
 BLK = TOpaque("MBlock")
 VBLK = TOpaque("VBlock")
@@ -264,9 +264,159 @@ def _decomp_task(sym, which):
     )
 
 
+TUP1 = tuple_type([TInt])
+SOLf = z3.Function("lapack_solve", BLK.sort(), VBLK.sort(), VBLK.sort())
+
+
+def _eigh_task(sym):
+    Q = "linalg.eigh"
+
+    def body(it):
+        install(it)
+        ctx = it.ctx
+        x, bl, i0, i1, c = mk_matrix(it, sym)
+        X0 = (bl.has, bl.val)
+        it.externals["ar.get_lib_fn"] = lambda it_, a, k: BuiltinVal("eigh", lambda i2, a2, k2: (SV(EWf(a2[0].t), VBLK), SV(EVf(a2[0].t), BLK)))
+        it.summaries["block_core.BlockVector"] = lambda it_, a, k: SymObj(it_.get_class("block_core", "BlockVector"), {"_blocks": a[0]}, tag="w")
+        ctx.assume(unique_by_column(bl))
+
+        def view(d, dflt):
+            if isinstance(d, dict):
+                assert not d
+                return (lambda q: z3.BoolVal(False)), (lambda q: dflt)
+            return (lambda q: z3.Select(d.has, q)), (lambda q: z3.Select(d.val, q))
+
+        def inv(it_, env, g):
+            vis = g["vis"]
+            wh, wv = view(env.vars["eval_blocks"], z3.Const("dfw", VBLK.sort()))
+            vh, vv = view(env.vars["evec_blocks"], z3.Const("dfv", BLK.sort()))
+            s, cc = z3.Const("s!inv", TUP2.sort()), z3.Int("c!inv")
+            return [
+                ("eigenvector_blocks_of_visited", z3.ForAll([s], z3.And(vh(s) == z3.Select(vis, s), z3.Implies(vh(s), vv(s) == EVf(z3.Select(X0[1], s)))))),
+                ("eigenvalue_keys_are_visited_column_charges", z3.ForAll([cc], wh(cc) == z3.Exists([s], z3.And(z3.Select(vis, s), k1(s) == cc)))),
+                ("eigenvalues_of_visited", z3.ForAll([s], z3.Implies(z3.Select(vis, s), wv(k1(s)) == EWf(z3.Select(X0[1], s))))),
+            ]
+
+        it.loop_specs[(Q, 0)] = LoopSpec(carried={"eval_blocks": ("dict", TInt, VBLK), "evec_blocks": ("dict", TUP2, BLK)}, invariant=inv)
+        fn = it.module_lookup("linalg", "eigh")
+
+        def post(r):
+            if not (isinstance(r, tuple) and len(r) == 2 and all(isinstance(v, SymObj) for v in r)):
+                return [("returns_eigenvalues_and_eigenvectors", False)]
+            w, v = r
+            wb, vb = w.fields["_blocks"], v.fields["_blocks"]
+            s, cc = z3.Const("s!post", TUP2.sort()), z3.Int("c!post")
+            return [
+                ("eigenvectors_have_one_block_per_input_block", z3.ForAll([s], z3.And(z3.Select(vb.has, s) == z3.Select(X0[0], s), z3.Implies(z3.Select(X0[0], s), z3.Select(vb.val, s) == EVf(z3.Select(X0[1], s)))))),
+                ("eigenvalue_blocks_keyed_by_column_charge", z3.ForAll([s], z3.Implies(z3.Select(X0[0], s), z3.And(z3.Select(wb.has, k1(s)), z3.Select(wb.val, k1(s)) == EWf(z3.Select(X0[1], s)))))),
+                ("no_other_eigenvalue_blocks", z3.ForAll([cc], z3.Implies(z3.Select(wb.has, cc), z3.Exists([s], z3.And(z3.Select(X0[0], s), k1(s) == cc))))),
+                ("eigenvectors_keep_indices_charge_class", v.fields["_indices"] == (i0, i1) and v.fields["_charge"].t == c and v.cls is x.cls),
+                ("eigenvector_blocks_not_shared_with_operand", vb is not bl),
+                ("result_is_new_array", v is not x),
+                ("operand_blocks_untouched", z3.And(bl.has == X0[0], bl.val == X0[1])),
+                ("operand_indices_untouched", x.fields["_indices"] == (i0, i1)),
+            ]
+
+        check_call(it, f"linalg.eigh[{sym}]", fn, [x], post=post, raises={"ValueError": lambda it_: c != 0})
+
+    return Task(
+        f"C11.eigh.block_structure.{sym}",
+        ["C11", "C12", "C01", "C14"],
+        [Q, "abelian_core.AbelianArray.copy_with"],
+        body,
+        axioms=shape_axioms,
+        assumes=["A-numpy: LAPACK eigh is a pure function of one block", "Valid(x) incl. 2-D charge conservation", "singledispatch resolves to the abelian implementation for AbelianArray"],
+        timeout_ms=40000,
+    )
+
+
+def _solve_task(sym):
+    Q = "linalg.solve"
+
+    def body(it):
+        install(it)
+        ctx = it.ctx
+        a, abl, i0, i1, ca = mk_matrix(it, sym, "a")
+        A0 = (abl.has, abl.val)
+        cls = it.get_class("abelian_core", "AbelianArray")
+        b = SymObj(cls, tag="b")
+        bbl = SymDict(z3.Const("b_has", z3.ArraySort(TUP1.sort(), z3.BoolSort())), z3.Const("b_val", z3.ArraySort(TUP1.sort(), VBLK.sort())), TUP1, VBLK, "b_blocks")
+        B0 = (bbl.has, bbl.val)
+        bi = mk_index(it, "b_i0")
+        cb = ctx.fresh("b_charge", TInt)
+        ctx.assume(ok_scalar(sym, cb))
+        b.fields.update({"_blocks": bbl, "_indices": (bi,), "_symmetry": a.fields["_symmetry"], "_charge": SV(cb, TInt)})
+        it.externals["ar.get_lib_fn"] = lambda it_, aa, k: BuiltinVal("solve", lambda i2, a2, k2: SV(SOLf(a2[0].t, a2[1].t), VBLK))
+        ctx.assume(unique_by_column(abl))
+        # 2-D conservation also makes the row charge determine the sector
+        s_, t_ = z3.Const("s!ur", TUP2.sort()), z3.Const("t!ur", TUP2.sort())
+        ctx.assume(z3.ForAll([s_, t_], z3.Implies(z3.And(z3.Select(abl.has, s_), z3.Select(abl.has, t_), k0(s_) == k0(t_)), s_ == t_)))
+        mk1 = lambda v: TUP1.make(v)  # noqa: E731
+        g0 = lambda t: TUP1.get(t, "f0")  # noqa: E731
+
+        def view(d, dflt):
+            if isinstance(d, dict):
+                assert not d
+                return (lambda q: z3.BoolVal(False)), (lambda q: dflt)
+            return (lambda q: z3.Select(d.has, q)), (lambda q: z3.Select(d.val, q))
+
+        def inv(it_, env, g):
+            vis = g["vis"]
+            xh, xv = view(env.vars["x_blocks"], z3.Const("dfx", VBLK.sort()))
+            s, u = z3.Const("s!inv", TUP2.sort()), z3.Const("u!inv", TUP1.sort())
+            return [
+                ("solution_keys", z3.ForAll([u], xh(u) == z3.Exists([s], z3.And(z3.Select(vis, s), z3.Select(A0[0], s), k1(s) == g0(u), z3.Select(B0[0], mk1(k0(s))))))),
+                ("solution_values", z3.ForAll([s], z3.Implies(z3.And(z3.Select(vis, s), z3.Select(B0[0], mk1(k0(s)))), xv(mk1(k1(s))) == SOLf(z3.Select(A0[1], s), z3.Select(B0[1], mk1(k0(s))))))),
+            ]
+
+        it.loop_specs[(Q, 0)] = LoopSpec(carried={"x_blocks": ("dict", TUP1, VBLK)}, invariant=inv)
+        fn = it.module_lookup("linalg", "solve")
+
+        def post(r):
+            if not isinstance(r, SymObj):
+                return [("returns_an_array", False)]
+            xb = r.fields["_blocks"]
+            s, u = z3.Const("s!post", TUP2.sort()), z3.Const("u!post", TUP1.sort())
+            inds = r.fields["_indices"]
+            ok = isinstance(inds, tuple) and len(inds) == 1 and isinstance(inds[0], SymObj)
+            out = [("solution_is_one_dimensional", ok)]
+            if not ok:
+                return out
+            xi = inds[0]
+            cm, cm1 = xi.fields["_chargemap"], i1.fields["_chargemap"]
+            out += [
+                ("solution_block_for_every_matrix_block_with_a_right_hand_side", z3.ForAll([s], z3.Implies(z3.And(z3.Select(A0[0], s), z3.Select(B0[0], mk1(k0(s)))), z3.And(z3.Select(xb.has, mk1(k1(s))), z3.Select(xb.val, mk1(k1(s))) == SOLf(z3.Select(A0[1], s), z3.Select(B0[1], mk1(k0(s)))))))),
+                ("no_other_solution_blocks", z3.ForAll([u], z3.Implies(z3.Select(xb.has, u), z3.Exists([s], z3.And(z3.Select(A0[0], s), k1(s) == g0(u), z3.Select(B0[0], mk1(k0(s)))))))),
+                ("solution_index_is_the_conjugated_column_index", z3.And(dual_term(xi) != dual_term(i1), cm.has == cm1.has, cm.val == cm1.val)),
+                ("solution_index_is_a_new_object", xi is not i1),
+                # c_x = c_b - c_a  (group arithmetic)
+                ("solution_charge_is_rhs_charge_minus_matrix_charge", I(r.fields["_charge"]) == norm(sym, cb - ca)),
+                ("result_is_new_array", r is not b and r is not a),
+                ("solution_blocks_not_shared", xb is not bbl),
+                ("matrix_untouched", z3.And(abl.has == A0[0], abl.val == A0[1]) if a.fields["_blocks"] is abl else False),
+                ("right_hand_side_untouched", z3.And(bbl.has == B0[0], bbl.val == B0[1]) if b.fields["_blocks"] is bbl else False),
+                ("operand_indices_untouched", a.fields["_indices"] == (i0, i1) and b.fields["_indices"] == (bi,)),
+            ]
+            return out
+
+        check_call(it, f"linalg.solve[{sym}]", fn, [a, b], post=post)
+
+    return Task(
+        f"C11.solve.block_structure.{sym}",
+        ["C11", "C12", "C01", "C14"],
+        [Q, "abelian_core.AbelianArray.copy_with", "abelian_core.BlockIndex.conj", "abelian_core.BlockIndex.copy_with"],
+        body,
+        axioms=shape_axioms,
+        assumes=["A-numpy: LAPACK solve is a pure function of (block, right hand side)", "Valid(a) incl. 2-D charge conservation (row charge and column charge each determine the sector)", "singledispatch resolves to the abelian implementation"],
+        timeout_ms=40000,
+    )
+
+
 def tasks():
     out = []
     for sym in SYMS1:
         for w in ("qr", "svd"):
             out.append(_decomp_task(sym, w))
+        out.append(_eigh_task(sym))
+        out.append(_solve_task(sym))
     return out
